@@ -1,3 +1,31 @@
 import Mdsort.Proofs.World
+
+/-!
+# C02 - a crash at any instant never leaves a message without an intact copy
+
+`runPlan` records the world after every call; a process killed before call k leaves the world
+after call k-1.  `File.durable` is the content as of the last successful fsync: with directory
+operations persisting in order, a power failure after call k leaves the directory state of some
+earlier call and the durable contents; because durable contents of the copies never shrink, the
+statement at every call covers those states.
+-/
+
 namespace Mdsort.Props
+open Mdsort Mdsort.Model
+
+/-- Process kill: after every call of the execution of an action list, under every fault plan,
+some entry is bound to a complete version of the message. -/
+theorem C02_crash_any_prefix (env : PEnv) (ml : MatchList) (st : ExecSt) (w : World) (orig : Bytes) (plan : Plan)
+    (hs : Proofs.Start w st orig) (hd : Proofs.NoDiscard ml) :
+    ∀ w' ∈ (runPlan plan (matchesExec env ml st) w 0 []).2.2, Proofs.Intact w' (Proofs.stages st.ms orig) :=
+  Proofs.exec_always_intact env ml st w orig plan hs hd
+
+/-- Power failure: the same holds for the content on stable storage - whenever a message is copied
+rather than renamed, the copy has been flushed (fflush, fsync, fclose all successful) before the
+original name is removed. -/
+theorem C02_power_failure (env : PEnv) (ml : MatchList) (st : ExecSt) (w : World) (orig : Bytes) (plan : Plan)
+    (hs : Proofs.Start w st orig) (hd : Proofs.NoDiscard ml) :
+    ∀ w' ∈ (runPlan plan (matchesExec env ml st) w 0 []).2.2, Proofs.IntactDurable w' (Proofs.stages st.ms orig) :=
+  Proofs.exec_always_durable env ml st w orig plan hs hd
+
 end Mdsort.Props
